@@ -55,6 +55,13 @@ CHECKS = {
         "text": "Generated operation histories (bursts obeying the directory pacing rule by construction; recursive/non-recursive; str/bytes roots; read-buffer sizes 272..default; micro-sleeps) are executed on a scratch tree watched by the real InotifyObserver; after every burst the stream is drained behind a sentinel and the tree obtained by replaying created/deleted/moved events onto the start tree must equal os.walk+lstat of the disk in paths and kinds. All histories of length <= 2 over a small universe are enumerated (quick: a seed-dependent quarter).",
         "note": "Real kernel, real threads: timing is sampled, not controlled. Oracle is evaluated only at drain points and never asserts absence within a time window. Trusted: vlib/fsops.py (model, executor, sentinel drain, lenient replay with strict final equality).",
     },
+    "C02": {
+        "engine": "fsops",
+        "design_ref": "DESIGN.md §3.1, §4 C02",
+        "technique": "property-based testing: generated tree-reshaping histories on the real kernel, coverage probe of every directory found on disk after the final drain (plus C01's replay oracle on the way)",
+        "text": "Histories biased to directory operations (nested creation bursts, arrive-then-rename, rename chains incl. ancestors, move-in of pre-built trees, relative and absolute roots, recursive and non-recursive) run against the real InotifyObserver; afterwards every directory enumerated from disk receives a uniquely named probe file whose FileCreatedEvent must arrive under exactly the real path before the following sentinel; a non-recursive watch must report nothing deeper than the root's children.",
+        "note": "Same trust base as C01. A nested creation burst whose top directory is renamed in the same burst is not generated (the rename changes the names of directories created moments earlier - outside the pacing condition).",
+    },
 }
 
 ALL = [f"C{i:02d}" for i in range(1, 21)]
